@@ -263,9 +263,22 @@ pub fn invlog_take() -> (Vec<Invocation>, Option<usize>) {
 
 pub const C11_TRIP: &str = "C11-MONITOR: derivative closure invoked twice in one pass";
 
+thread_local! {
+    /// every derivative closure handed to `Array::op` holds a clone of this token: its strong count - 1 is the number
+    /// of user closures (that is, of user-operation graph nodes) still alive
+    static CLOSURE_TOKEN: RefCell<Rc<()>> = RefCell::new(Rc::new(()));
+}
+pub fn closure_token_reset() {
+    CLOSURE_TOKEN.with(|t| *t.borrow_mut() = Rc::new(()));
+}
+pub fn user_closures_alive() -> usize {
+    CLOSURE_TOKEN.with(|t| Rc::strong_count(&t.borrow()) - 1)
+}
+
 fn custom_op(kind: &OpKind, args: &[&Array], node_id: usize) -> Array {
     let k = kind.clone();
     let k2 = kind.clone();
+    let token: Rc<()> = CLOSURE_TOKEN.with(|t| t.borrow().clone());
     let f: ForwardOp = Rc::new(move |x: &[&Array]| {
         for o in x.iter().skip(1) {
             assert_eq!(o.dimensions(), x[0].dimensions(), "custom op: operands must have the same shape");
@@ -286,6 +299,7 @@ fn custom_op(kind: &OpKind, args: &[&Array], node_id: usize) -> Array {
         Array::from((x[0].dimensions().to_vec(), v))
     });
     let b: BackwardOp = Rc::new(move |c, t, d| {
+        let _held = &token;
         let trip = INVLOG.with(|l| {
             let mut l = l.borrow_mut();
             let dup = l.entries.iter().any(|e| e.node == node_id);
